@@ -69,7 +69,7 @@ PROPS = {
             "CV.Replica.load_save", "CV.Replica.save_keys", "CV.Genesis.build_perm", "CV.Genesis.sorted_ext",
             "CV.Bridge.nondet_reviewed", "CV.Bridge.nondet_scanned",
         ],
-        comps={"outcome"},
+        comps={"outcome", "state"},
         assumptions=_C06_ASSUME,
         level="proof (partial) + differential replicas",
         rule=("THE PROOF PART IS PARTIAL; THE REPLICA RUN IS THE DECISION PROCEDURE FOR THE CODE. one evaluation = one height of one generated "
@@ -79,7 +79,8 @@ PROPS = {
               "between blocks; D a second continuous replica in a separate OS process with GOMAXPROCS=2 (its own map-iteration seeds). "
               "Compared at every height: AppHash, digest of every ExecTxResult (code, codespace, data, gas, events; log text excluded as in "
               "CometBFT's LastResultsHash) and of the block events; at every 7th height and the last: digest of the whole exported app "
-              "state. A divergence is a direct violation; the block history (<trace>.blocks, regenerated from the seed) is the replay. "
+              "state; at those heights replica A's exported Canto sections are also run through the C18 model (validate, init, export fixed "
+              "point), so the replicas agree on a state the specification accepts. A divergence is a direct violation; the block history (<trace>.blocks, regenerated from the seed) is the replay. "
               "distinct = (transactions, accepted, reads, epoch tick, export sampled, D present) classes"),
         evidence_notes=("PARTIAL: the theorems (reads_pure, restart_transparent, schedules_agree, export_deterministic, load_save) are about the "
                         "model and are labelled _partial; determinism of the Go implementation is decided by the replica run above and by the "
